@@ -41,12 +41,14 @@ for dirpath, dirnames, filenames in os.walk(os.path.join(REPO, 'photutils')):
             multi = {k: v for k, v in alld.items() if len(v) > 1}
             if multi:
                 alldefs[q] = multi
-sigs = {k: v[0] for k, v in sigs.items() if len(v) == 1}
 for mod, tree in trees:
     for q, node in canon._functions(tree, mod):
         sh = canon.call_shapes(node, sigs)
         if sh:
             shapes[q] = sh
+    sh = canon.call_shapes(tree, sigs)
+    if sh:
+        shapes[mod + '.<toplevel>'] = sh
 params = {}
 for mod, tree in trees:
     for q, node in canon._functions(tree, mod):
